@@ -11,6 +11,7 @@ from ..boolx import Unknown, show, valuations
 from ..model import AnalysisError
 from ..util import dotted, norm, short, walk_no_nested
 from ..visitors import totality
+from .common_children import children_rule
 from .common_fields import ATOMS, SER_VISITOR, SMETH, FieldModel, consistent
 
 SER = "apischema.serialization"
@@ -137,6 +138,10 @@ def check(ctx):
                     p = parents.get(p)
                 ctx.check(guarded, "C04.R4", f"{c.name}.update_result:update", n, "result.update(...) outside the `alias is None` (aggregate) branch merges a value's keys into the parent", ur, n, detail="only under alias is None")
 
+    # ---------------- R5
+    ctx.rule("C04.R5", "every child method held by a node / field strategy is applied to the matching part of the object", floor=40)
+    children_rule(ctx, "C04.R5", "ser")
+
 
 def mutants(mb):
     S = "apischema/serialization/__init__.py"
@@ -158,5 +163,10 @@ def mutants(mb):
     mb.add_text("serialized-key-name", M, "            result[self.alias] = self.method.serialize(value, self.alias)\n\n\n@dataclass\nclass SimpleObjectMethod", "            result[self.name] = self.method.serialize(value, self.alias)\n\n\n@dataclass\nclass SimpleObjectMethod", "C04.R4", "SerializedField")
     mb.add_text("no-obj-not-rebound", S, "        type, obj = Any, type\n", "        obj = type\n", "C04.R3", "serialize")
     mb.add_text("hook-missing", S, "    def enum(self, cls: Type[Enum]) -> SerializationMethod:", "    def enum_(self, cls: Type[Enum]) -> SerializationMethod:", "C04.R1", "enum")
+    mb.add_text("collection-elt-raw", M, "        return [self.value_method.serialize(elt, i) for i, elt in enumerate(obj)]", "        return [elt for i, elt in enumerate(obj)]", "C04.R5", "CollectionMethod.value_method")
+    mb.add_text("collection-elt-index", M, "        return [self.value_method.serialize(elt, i) for i, elt in enumerate(obj)]", "        return [self.value_method.serialize(i, i) for i, elt in enumerate(obj)]", "C04.R5", "CollectionMethod.value_method:part")
+    mb.add_text("mapping-key-raw", M, "            self.key_method.serialize(key, key): self.value_method.serialize(value, key)", "            key: self.value_method.serialize(value, key)", "C04.R5", "MappingMethod.key_method")
+    mb.add_text("simple-field-raw", M, "        result[self.alias] = self.method.serialize(getattr(obj, self.name), self.alias)", "        result[self.alias] = getattr(obj, self.name)", "C04.R5", "SimpleField.method")
+    mb.add_text("object-fields-skipped", M, "            field.update_result(obj, result)", "            pass", "C04.R5", "fields")
     mb.add_text("neg-flag-reordered", S, "                    is_union_of(field.type, UndefinedType)\n                    or field_default is Undefined,\n", "                    field_default is Undefined\n                    or is_union_of(field.type, UndefinedType),\n", negative=True)
     mb.add_text("neg-property-instead-of-call", S, "                    is_union_of(field.type, UndefinedType)\n                    or field_default is Undefined,\n", "                    field.undefined or field_default is Undefined,\n", negative=True)
